@@ -115,6 +115,7 @@ package env
 //@   ensures [token-placed] has(e.credentials, "AWS_CONTAINER_AUTHORIZATION_TOKEN") && e.credentials["AWS_CONTAINER_AUTHORIZATION_TOKEN"] == token && has(e.credentials, "AWS_CONTAINER_CREDENTIALS_FULL_URI")
 //@   ensures [no-keys-added] forall k string :: k != "AWS_CONTAINER_AUTHORIZATION_TOKEN" && k != "AWS_CONTAINER_CREDENTIALS_FULL_URI" ==> has(e.credentials, k) == old(has(e.credentials, k)) && e.credentials[k] == old(e.credentials[k])
 //@   ensures [marked] e.initEnvVarsSet && envWired(e)
+//@   ensures [no-keys-through-the-customer-layer-either] (!old(has(e.Customer, "AWS_ACCESS_KEY_ID")) ==> !has(e.Customer, "AWS_ACCESS_KEY_ID")) && (!old(has(e.Customer, "AWS_SECRET_ACCESS_KEY")) ==> !has(e.Customer, "AWS_SECRET_ACCESS_KEY")) && (!old(has(e.Customer, "AWS_SESSION_TOKEN")) ==> !has(e.Customer, "AWS_SESSION_TOKEN"))
 
 //@ func NewEnvironment
 //@   modifies nothing
